@@ -130,10 +130,16 @@ impl Borrowed {
         }
         GATED.set(true);
         let t = Duration::from_millis(self.gate_ms);
+        let t0 = Instant::now();
         let mut g = self.gate.lock().unwrap_or_else(|e| e.into_inner());
         loop {
             if self.returned.load(SeqCst) {
                 g.opened_by_return += 1;
+                return;
+            }
+            // the planned panic never came (the code under test skipped the callback it was planned in): do not wait for ever
+            if t0.elapsed() > Duration::from_secs(2) {
+                g.opened_by_timeout += 1;
                 return;
             }
             if g.panics >= expected {
